@@ -379,13 +379,19 @@ package astisub
 //@   ghostfun opaque E0(k int) time.Duration = old(s.Items[k].EndAt)
 //@   ghostfun opaque S0(k int) time.Duration = old(s.Items[k].StartAt)
 //@   ghostfun affine(t time.Duration) real = real(desired1) + real(t - actual1) * (real(desired2 - desired1) / real(actual2 - actual1))
+//@   ghostfun slope() real = real(desired2 - desired1) / real(actual2 - actual1)
 //@   lemma oFacts(k int) : 0 <= k && k < old(len(s.Items)) ==> O(k) != nil && instant(S0(k)) && instant(E0(k))
 //@   lemma oDistinct(i int, j int) : 0 <= i && i < j && j < old(len(s.Items)) ==> O(i) != O(j)
+//@   lemma manual pure corr(q real, ra1 real, rd1 real, rt real) : 0.5 <= q && q <= 2.0 && 0.0 <= ra1 && ra1 <= 86400000000000.0 && 0.0 <= rd1 && rd1 <= 86400000000000.0 && 0.0 <= rt && rt <= 86400000000000.0 ==> abs(real(fptrunc(fprnd(fprnd(q) * rt)) + fptrunc(fprnd(rd1 - fprnd(fprnd(q) * ra1)))) - (rd1 + (rt - ra1) * q)) <= 1000.0
 //@   ensures [list] len(s.Items) == old(len(s.Items)) && (forall k int :: 0 <= k && k < len(s.Items) ==> s.Items[k] == O(k))
 //@   ensures [microsecond] forall k int :: 0 <= k && k < old(len(s.Items)) ==> abs(real(O(k).EndAt) - affine(E0(k))) <= 1000.0 && abs(real(O(k).StartAt) - affine(S0(k))) <= 1000.0
 //@   ensures [monotone] forall i, j int :: 0 <= i && i < old(len(s.Items)) && 0 <= j && j < old(len(s.Items)) ==> (E0(i) <= E0(j) ==> O(i).EndAt <= O(j).EndAt) && (S0(i) <= S0(j) ==> O(i).StartAt <= O(j).StartAt) && (S0(i) <= E0(j) ==> O(i).StartAt <= O(j).EndAt) && (E0(i) <= S0(j) ==> O(i).EndAt <= O(j).StartAt)
 //@   assigns Item.StartAt, Item.EndAt
-//@   loop 1: invariant 0.5 - 0.001 <= a && a <= 2.001
+//@   loop 1: invariant a == fprnd(slope()) && 0.499 <= a && a <= 2.001
+//@   loop 1: invariant b == fptrunc(fprnd(real(desired1) - fprnd(a * real(actual1))))
+//@   loop 1: invariant forall k int :: 0 <= k && k < idx ==> O(k).EndAt == fptrunc(fprnd(a * real(E0(k)))) + b && O(k).StartAt == fptrunc(fprnd(a * real(S0(k)))) + b
+//@   loop 1: use step corr(slope(), real(actual1), real(desired1), real(E0(idx - 1)))
+//@   loop 1: use step corr(slope(), real(actual1), real(desired1), real(S0(idx - 1)))
 //@   loop 1: invariant forall k int :: 0 <= k && k < idx ==> abs(real(O(k).EndAt) - affine(E0(k))) <= 1000.0 && abs(real(O(k).StartAt) - affine(S0(k))) <= 1000.0
 //@   loop 1: invariant forall k int :: idx <= k && k < old(len(s.Items)) ==> O(k).EndAt == E0(k) && O(k).StartAt == S0(k)
 //@ end
